@@ -251,6 +251,9 @@ func (r *Run) Violations() int { r.mu.Lock(); defer r.mu.Unlock(); return r.nvio
 // returns the process exit code.
 func (r *Run) Finish() int {
 	dir := VerifDir()
+	if d := os.Getenv("VERIF_OUT"); d != "" { // development aid (parallel mutant runs): evidence and replays elsewhere
+		dir = d
+	}
 	if os.Getenv("VERIF_RERUN") == "1" {
 		// second, independent execution of the whole exploration (see below): report raw findings only
 		r.mu.Lock()
